@@ -54,7 +54,8 @@ def main():
                 cmd = "%s %s/dst/check.py %s --tier quick" % (sys.executable, VERIF, c)
                 if a.n:
                     cmd += " --n %d" % a.n
-                env = dict(os.environ, VERIF_SEED=seed)
+                env = dict(os.environ, VERIF_SEED=seed, VERIF_EVIDENCE_DIR="/tmp/seeded_evidence_%s" % a.id)
+                os.makedirs(env["VERIF_EVIDENCE_DIR"], exist_ok=True)
                 if a.scratch:
                     env["VERIF_REPO"] = target
                 cp = sh(cmd, env=env, cwd=VERIF)
@@ -62,6 +63,7 @@ def main():
                 results["%s@%s" % (c, seed)] = {"exit": cp.returncode, "wall_s": round(time.time() - t0, 1), "lines": lines[:8]}
                 print(c, "seed", seed, "exit", cp.returncode, lines[:4])
     finally:
+        sh("rm -rf /tmp/seeded_evidence_%s" % a.id)
         if a.scratch:
             sh("git -C %s worktree remove --force %s" % (REPO, target))
             sh("git -C %s worktree prune" % REPO)
